@@ -28,7 +28,9 @@ EXPLANATION = (
     "sequence number, keys installed mirror-wise (shared with C01).")
 NOT_DECIDED = ("that the MAC/AEAD primitives reject what they should (C09/C12: numerical); "
                "bit-level exhaustiveness of rejections; behaviour under concrete replay/reorder schedules")
-TECHNIQUE = "CFG must-pass-through with effective gates and flag-sensitive edge cuts; finite-domain guard evaluation; sibling agreement"
+TECHNIQUE = ("CFG must-pass-through with effective gates and flag-sensitive edge cuts; finite-domain guard evaluation; "
+             "sibling agreement; AAD / nonce / MAC input / CBC MAC-and-padding scan by interpreting the source of "
+             "the named methods over sample records with the checker's own AST evaluator (nothing of the library is run)")
 
 UNPROTECT = ["_decryptSSL2", "_decryptAndUnseal", "_macThenDecrypt", "_decryptThenMAC", "_decryptStreamThenMAC"]
 
